@@ -119,7 +119,7 @@ theorem mall_exp {all : List Exp} {i : Nat} {cfg : Cfg} (hmem : ∀ x ∈ all, x
     completes, the invariant holds at every prefix, and the final files of every experiment processed end up good -/
 theorem runExps_good {all : List Exp} (rs : Bool) (exps : List Exp)
     (hsub : ∀ x ∈ exps, x ∈ all) (hnd : (exps.map (fun x => x.1)).Nodup)
-    (hwf : ∀ x ∈ all, WF x.2.1 ∧ (x.2.1.fromSaves = false ∧ x.2.1.gzRef = false) ∧ x.2.2.Nodup)
+    (hwf : ∀ x ∈ all, WF x.2.1 ∧ (x.2.1.fromSaves = false ∧ x.2.1.gzRef = false ∧ x.2.1.idx = false) ∧ x.2.2.Nodup)
     (hcfg : ∀ x ∈ all, ∀ y ∈ all, x.1 = y.1 → x.2.1 = y.2.1)
     {m : MFS} (hinv : MInv all m) :
     (runExps fixed rs exps m).ok = true ∧ MAllP (MInv all) m (runExps fixed rs exps m).evs ∧
@@ -131,8 +131,8 @@ theorem runExps_good {all : List Exp} (rs : Bool) (exps : List Exp)
   | cons x exps ih =>
     obtain ⟨i, cfg, ord⟩ := x
     have hx := hsub (i, cfg, ord) (by simp)
-    obtain ⟨wf, ⟨hm, hgz⟩, hord⟩ := hwf _ hx
-    simp only at wf hm hgz hord
+    obtain ⟨wf, ⟨hm, hgz, hix⟩, hord⟩ := hwf _ hx
+    simp only at wf hm hgz hix hord
     have hJ : J cfg (m.view i) := hinv _ hx
     have hnd' := List.nodup_cons.mp hnd
     -- the experiment in its own folder
@@ -144,7 +144,7 @@ theorem runExps_good {all : List Exp} (rs : Bool) (exps : List Exp)
       (by intro e _ e'; subst e'; simpa using e)
       (by intro e; rw [hm] at e; exact absurd e (by simp))
       (by intro e; rw [hm] at e; exact absurd e (by simp))
-      (by simp [refOK, hgz])
+      (by simp [refOK, hgz, hix])
     rw [← hst] at hg hfin
     generalize hr : runStages ((stages fixed cfg ord rs (rs && (m.view i).has .lock)).drop 2) (m.view i) = r at hg hfin
     obtain ⟨a, b, c⟩ := mall_exp (cfg := cfg) (fun y hy e => hcfg y hy _ hx e) r.evs hinv hg.2
